@@ -568,7 +568,96 @@ func c11Lab(t *testing.T) {
 		}
 	})
 	c11Bulk(t, s)
+	c11Mixed(t, s)
 	c11ReturnStreams(t, s)
+}
+
+// c11Mixed: one stream that carries requests and responses in turn (a peer that
+// is caller and callee over the connection it opened). All of them are relayed
+// to one TCP element - the requests by their Route, the responses by their
+// second Via - so the order in which they arrive there, connection by
+// connection, is the order in which the proxy processed them: stream order,
+// however the stream was cut.
+func c11Mixed(t *testing.T, s *stdSvc) {
+	V.Require("lab: requests and responses in turn on one stream")
+	rcheck(t, "lab-mixed-stream", V.N(15, 150), func(rt *rapid.T) {
+		l := s.in.cfg.Listens[0]
+		sinkIP, sinkPort := s.ip(24), 5070
+		pairs := rapid.IntRange(2, 5).Draw(rt, "request/response pairs")
+		var wires [][]byte
+		var ids []string
+		for i := 0; i < 2*pairs; i++ {
+			id := s.nextID("c11m-")
+			ids = append(ids, id)
+			var w string
+			if i%2 == 0 {
+				w = fmt.Sprintf("MESSAGE sip:x@elsewhere.example SIP/2.0\r\nVia: SIP/2.0/TCP %s:5060;branch=z9hG4bK%s\r\nRoute: <sip:%s:%d;transport=tcp;lr>\r\nFrom: <sip:a@a.example>;tag=f\r\nTo: <sip:x@elsewhere.example>\r\nCall-ID: %s\r\nCSeq: %d MESSAGE\r\nContent-Length: 0\r\n\r\n", s.ip(13), id, sinkIP, sinkPort, id, i+1)
+			} else {
+				w = fmt.Sprintf("SIP/2.0 %d Answer\r\nVia: SIP/2.0/TCP %s:%d;branch=z9hG4bKp%s\r\nVia: SIP/2.0/TCP %s:%d;branch=z9hG4bK%s\r\nFrom: <sip:b@b.example>;tag=g\r\nTo: <sip:a@a.example>;tag=t\r\nCall-ID: %s\r\nCSeq: %d OPTIONS\r\nContent-Length: 0\r\n\r\n", rapid.SampledFrom([]int{180, 200, 404}).Draw(rt, "status"), l.Addr, l.TCPPort, id, sinkIP, sinkPort, id, id, i+1)
+			}
+			wires = append(wires, []byte(w))
+		}
+		c, err := s.in.hub.dialTCP("c11", s.ip(13), l.Addr, l.TCPPort)
+		if err != nil {
+			failf(rt, "TCP listener does not accept: %v", err)
+		}
+		defer c.close()
+		s.model.learnRequest(s.model.transport(0, "tcp"), s.ip(13), &AMsg{IsReq: true})
+		s.in.expect(wires...)
+		oneWrite := rapid.Bool().Draw(rt, "all in one write")
+		V.Journal(t.Name()+"/lab-mixed-stream", map[string]any{"messages": 2 * pairs, "one_write": oneWrite})
+		if oneWrite {
+			var all []byte
+			for _, w := range wires {
+				all = append(all, w...)
+			}
+			if err := c.send(all); err != nil {
+				failf(rt, "the proxy closed the connection in the middle of a well-formed stream: %v", err)
+			}
+		} else {
+			for _, w := range wires {
+				if err := c.send(w); err != nil {
+					failf(rt, "the proxy closed the connection in the middle of a well-formed stream: %v", err)
+				}
+			}
+		}
+		rs, err := s.in.settle(c.sendStrict, 2*pairs)
+		if _, lost := err.(labLost); lost {
+			failf(rt, "%v (a stream of %d requests and responses in turn)", err, 2*pairs)
+		} else if err != nil {
+			V.HarnessError(rt, "%v", err)
+		}
+		V.Class("lab: requests and responses in turn on one stream")
+		V.NonTrivial(fmt.Sprintf("mixed|%d|%v|%s", pairs, oneWrite, ids[0]))
+		pos := map[string]int{}
+		for i, id := range ids {
+			pos[id] = i
+		}
+		perConn := map[*labTCPConn][]int{}
+		seen := 0
+		for _, r := range labMessages(rs) {
+			id, _ := r.msg.First(hCallID)
+			p, mine := pos[id]
+			if !mine {
+				continue
+			}
+			if r.tcp == nil || r.ep == nil || r.ep.ip != sinkIP || r.ep.port != sinkPort {
+				return // where messages go is C02's and C03's subject
+			}
+			seen++
+			perConn[r.tcp] = append(perConn[r.tcp], p)
+		}
+		if seen != 2*pairs {
+			failf(rt, "a stream of %d requests and responses in turn: %d of them were relayed", 2*pairs, seen)
+		}
+		for conn, ps := range perConn {
+			for i := 1; i < len(ps); i++ {
+				if ps[i] < ps[i-1] {
+					failf(rt, "a stream of %d requests and responses in turn (written %s): on %s they arrived in the order %v of their positions in the stream - message %d was processed only after message %d, which follows it in the stream", 2*pairs, map[bool]string{true: "in one piece", false: "message by message"}[oneWrite], conn, ps, ps[i]+1, ps[i-1]+1)
+				}
+			}
+		}
+	})
 }
 
 // c11Bulk: how the stream is split includes not being split at all while being
